@@ -30,8 +30,6 @@ LOG: list = []
 PROTOCOL = {
     "__class__", "__getitem__", "__len__", "__iter__", "__contains__", "__str__", "__int__", "__float__", "__index__", "__liquid__",
     "__html__", "__getitem_async__", "__hash__", "__eq__", "__reversed__", "__bool__", "__repr__", "__format__",
-    # Mapping / Sequence protocol used for iteration and filters
-    "items", "keys", "values", "get", "index", "count",
     # documented drop hooks
     "force_liquid_default", "poke",
     # copy protocol: read by CrossHair's own argument copying when tracing (never natively); harmless to templates
@@ -39,13 +37,18 @@ PROTOCOL = {
 }
 
 
-def _allowed(name: str) -> bool:
-    return name in PROTOCOL or name.startswith("__ch_") or name.startswith("_ch_")
+# Mixin methods of the abstract base classes: reading them is part of the Mapping / Sequence protocol for objects that
+# ARE a Mapping / Sequence, and a Python attribute access for every other object.
+ABC_PROTOCOL = {"MapDrop": {"items", "keys", "values", "get"}, "SeqDrop": {"index", "count"}}
+
+
+def _allowed(name: str, shape: str = "") -> bool:
+    return name in PROTOCOL or name in ABC_PROTOCOL.get(shape, ()) or name.startswith("__ch_") or name.startswith("_ch_")
 
 
 class _Logged:
     def __getattribute__(self, name):  # type: ignore[no-untyped-def]
-        LOG.append(name)
+        LOG.append((type(self).__name__, name))
         return object.__getattribute__(self, name)
 
 
@@ -58,6 +61,25 @@ class Plain(_Logged):
 
     @property
     def prop(self):  # type: ignore[no-untyped-def]
+        return SECRET
+
+    # look-alikes of the mapping / sequence interface on an object that is neither
+    def items(self):  # type: ignore[no-untyped-def]
+        return [(SECRET, SECRET)]
+
+    def keys(self):  # type: ignore[no-untyped-def]
+        return [SECRET]
+
+    def values(self):  # type: ignore[no-untyped-def]
+        return [SECRET]
+
+    def get(self, key, default=None):  # type: ignore[no-untyped-def]
+        return SECRET
+
+    def index(self, *a):  # type: ignore[no-untyped-def]
+        return SECRET
+
+    def count(self, *a):  # type: ignore[no-untyped-def]
         return SECRET
 
 
@@ -160,7 +182,7 @@ def d_no_attr(p: int, ni: int, shape: int, is_async: bool) -> bool:
     out = _render(TEMPLATES[p], {"o": o, "l": items, "k": k, "probe": SECRET}, is_async)
     if SECRET in out:
         return False
-    return all(_allowed(name) for name in LOG)
+    return all(_allowed(name, shape_name) for shape_name, name in LOG)
 
 
 # ---- drops that use getattr-by-name internally ------------------------------------------------
